@@ -517,7 +517,23 @@ def mk_abs(e: Rat) -> Rat:
     return C(abs(c)) * A('Abs', p)
 
 
+def variance_form(body: Rat, length: Rat) -> Rat:
+    """population variance of an element-wise expression: Mean((y - Mean(y))^2) (numpy.var / numpy.std**2 with ddof = 0)"""
+    m = mk_reduce('Mean', body, length)
+    d = body - m
+    return mk_reduce('Mean', d * d, length)
+
+
 def mk_pow(b: Rat, e: Rat) -> Rat:
+    # (c ** p) ** q == c ** (p*q) for a non-negative base raised to 1/2 (square roots of means of squares)
+    if e.is_const():
+        ats = list(b.atoms())
+        if len(ats) == 1 and b == Rat.atom(ats[0]) and ATOMS.head(ats[0]) == 'Pow':
+            c0, p0 = ATOMS.args(ats[0])
+            if isinstance(p0, Rat) and p0.is_const() and p0.const_value() == Fraction(1, 2):
+                prod = p0.const_value() * e.const_value()
+                if prod.denominator == 1:
+                    return mk_pow(c0, C(prod))
     if e.is_const():
         ev = e.const_value()
         if ev.denominator == 1 and abs(ev.numerator) <= 8:
